@@ -26,7 +26,7 @@ m = {
     "setup_cmd": "./build.sh",
     "hooks": {
         "guard": "verif",
-        "enable": "go build -tags verif ./...   (contract files zz_contracts_verif.go are comment-only; gvc reads them directly)",
+        "enable": "go build -tags verif ./...   (contract files zz_contracts_verif.go are comment-only and read directly by gvc; document/zz_lemmas_verif.go holds one specification-only function, compiled only under the tag; gvc loads /repo with -tags verif)",
         "baseline_off_cmd": "cd /repo && GOFLAGS=-mod=mod GOPROXY=off GOSUMDB=off GOTOOLCHAIN=local go1.26 test -json -vet=off -count=1 -timeout 25m ./...",
         "source_commits": hook_commits,
         "add_only": True,
